@@ -430,7 +430,8 @@ func runC07(c *Ctx) {
 	c.Res.Rule = "CLI stream: tuples of 1-3 source and 0-2 base profiles over a shared universe of 12 locations/8 functions with overlapping stacks, " +
 		"permuted/partially overlapping sample types, units drawn per profile from one family (bytes..gb, ns..s, count), zeros in columns, |physical value| <= 2^46; " +
 		"modes plain/-base/-diff_base x -normalize x sample_index; strategies: random, self-difference, self-difference with converted units, zero next to unscaled non-zero; " +
-		"in half of the non-self-difference tuples the profiles come from different BUILDS: function/location/mapping ids, function start lines and file names, line numbers, addresses, mapping range/build id/file all differ, only names agree (entries must still combine by name); " +
+		"in half of the non-self-difference tuples the profiles come from different BUILDS: function/location/mapping ids, function start lines and file names, line numbers, addresses, mapping range/build id/file all differ, only names agree (entries must still combine by name); in 45% they are the SAME binary symbolized differently (same mapping and addresses; function renamed / other line / other file+start line / no symbols at an address); " +
+		"independently in 60% the members have different table sizes (only used locations + 0-7 unused), id schemes (dense rotated, sparse/huge unsorted, shifted) and ASLR-shifted mappings; 1-5 sources; reports at functions (68%), lines, files or addresses granularity; " +
 		"separate streams: large (|v|>2^53) and normalize-unaligned; many-sources stream (in-process driver.PProf, own FlagSet): source and base LISTS of k*128+{-2..2} tiny profiles (k=1..3), same oracles. In-process streams: ScaleN (integer/dyadic/zero ratios), Scale(-1) float path, Normalize, CompatibilizeSampleTypes, ScaleProfiles. " +
 		"non-trivial = CLI case with >=2 profiles where at least two profiles share a stack, or in-process case with >=1 sample and a ratio != 1 / a reordering / a unit change; distinct by case JSON"
 	tmp, err := os.MkdirTemp(c.Dir, "tmp-c07-")
@@ -453,7 +454,7 @@ func runC07(c *Ctx) {
 	}
 	r := NewRng(c.Seed)
 	var cases []*c07Case
-	nCLI := 260 * c.Scale
+	nCLI := 200 * c.Scale
 	for i := 0; i < nCLI; i++ {
 		cases = append(cases, c07GenCLI(r, i))
 	}
